@@ -6,6 +6,7 @@ package pdrv
 // expected values.
 
 import (
+	"context"
 	"strings"
 	"time"
 
@@ -66,3 +67,27 @@ func (it *Interp) GetAnswer(st storage.Storage, bsym, ksym string) map[string]an
 // RealBucket / RealKey expose the concrete names of the running program's symbols.
 func (it *Interp) RealBucket(sym string) storage.BucketName { return it.bucket(sym) }
 func (it *Interp) RealKey(sym string) storage.ObjectKey     { return it.key(sym) }
+
+// ---- helpers for drivers that execute calls the interpreter does not know (extra options on copies,
+// bulk deletes): the same symbol tables and id maps as Exec uses.
+
+// RealVid / RealUid map model ids of the running program to the real ids (fresh, never handed out ids
+// for unknown numbers), ModelUid numbers a real upload id.
+func (it *Interp) RealVid(n int) *string            { return it.realVid(n) }
+func (it *Interp) RealUid(n int) storage.UploadId   { return it.realUid(n) }
+func (it *Interp) ModelUid(real string) int         { return it.modelUid(real) }
+func (it *Interp) Context() context.Context         { return it.ctx }
+
+// CopyOptions builds the CopyObjectOptions of a symbolic CopyObject call exactly as Exec does.
+func (it *Interp) CopyOptions(c Call) *storage.CopyObjectOptions {
+	opts := &storage.CopyObjectOptions{ReplaceMetadata: c.s("mdir") == "REPLACE", ReplaceTags: c.s("tdir") == "REPLACE",
+		ContentType: ctypes[c.s("ctype")], Metadata: buildMeta(c.s("meta")), Tags: tagSets[c.s("tags")], StorageClass: classPtr(c.s("class"))}
+	if v := c.i("svid"); v >= 0 {
+		opts.SourceVersionID = it.realVid(v)
+	}
+	return opts
+}
+
+// Str / Int read a field of a symbolic call.
+func (c Call) Str(k string) string { return c.s(k) }
+func (c Call) Int(k string) int    { return c.i(k) }
